@@ -206,6 +206,14 @@ def run(chk, tier):
         ev = d.get('discr(field:0(%s))' % SP.replace('\\', ''))
         names = [short(c[1]) for c in user_calls(o)]
         val = vshow(o.value)
+        spv = SP.replace('\\', '')
+        if val == spv and ev != PF and 'TracerState::fail_probe' not in names:
+            # the send result is handed back unchanged: Ok stays Ok, any other error stays that error
+            covered = ['Ok'] if okd == 0 else (['Err(other)'] if okd == 1 else ['Ok', 'Err(other)'])
+            for row in covered:
+                rows[row] = True
+                chk.ok('R4', 'do_send:' + row, 'send result returned unchanged')
+            continue
         if okd == 0:
             row, good = 'Ok', val == 'Result::Ok(unit)' and 'TracerState::fail_probe' not in names
         elif ev == PF:
